@@ -237,25 +237,36 @@ def iter_functions(m: Module):
     yield from rec(m.tree.body, "")
 
 
-def attr_uses(repo: Repo, attr: str) -> list:
-    """Every Attribute node '<x>.<attr>' in the package: [(module, enclosing qualname, Attribute node, parent node)]."""
-    out = []
-    for m in repo.modules.values():
+_AU_CACHE: dict = {}
+
+
+def _module_maps(m: Module):
+    key = id(m)
+    if key not in _AU_CACHE:
         parents = {}
         for p in ast.walk(m.tree):
             for c in ast.iter_child_nodes(p):
                 parents[id(c)] = p
         encl = {}
-        for qual, fn in iter_functions(m):
-            for n in ast.walk(fn):
-                encl.setdefault(id(n), qual) if False else None
-        # innermost enclosing function: assign in order of nesting depth (outer first, inner overrides)
+        # innermost enclosing function: outer first, inner overrides
         for qual, fn in sorted(iter_functions(m), key=lambda x: x[0].count(".")):
             for n in ast.walk(fn):
                 encl[id(n)] = qual
+        attrs = {}
         for n in ast.walk(m.tree):
-            if isinstance(n, ast.Attribute) and n.attr == attr:
-                out.append((m, encl.get(id(n), "<module>"), n, parents.get(id(n))))
+            if isinstance(n, ast.Attribute):
+                attrs.setdefault(n.attr, []).append(n)
+        _AU_CACHE[key] = (parents, encl, attrs, m)
+    return _AU_CACHE[key]
+
+
+def attr_uses(repo: Repo, attr: str) -> list:
+    """Every Attribute node '<x>.<attr>' in the package: [(module, enclosing qualname, Attribute node, parent node)]."""
+    out = []
+    for m in repo.modules.values():
+        parents, encl, attrs, _ = _module_maps(m)
+        for n in attrs.get(attr, []):
+            out.append((m, encl.get(id(n), "<module>"), n, parents.get(id(n))))
     return out
 
 
